@@ -27,6 +27,8 @@ THEOREMS = [
     "PV.C05.indents_balanced",
     "PV.C05.full_lexer_tiles",
     "PV.C05.gaps_are_trivia",
+    "PV.C05.indent_dedent_at_line_start",
+    "PV.C05.nonlogical_newline_placement",
     "PV.C05.spelling_table_eq",
 ]
 TRUSTED = [
@@ -47,12 +49,10 @@ PARTIAL = [
     "float / imaginary tokens: the theorem says the token's numeral is the literal's text with underscores removed "
     "and the exponent marker lower-cased; that f64::from_str rounds this numeral correctly is trusted "
     "(compared bit-for-bit with CPython float() on every run)",
-    "placement of INDENT/DEDENT 'only at the start of a logical line' (DESIGN: indent_dedent_at_line_start) is not a "
-    "Lean theorem; it is judged on the real token stream by the Python oracle (INDENT after NEWLINE or at the start, "
-    "covering the whole indentation of its line; DEDENT after NEWLINE/DEDENT, empty, at the start of its line or at EOF)",
-    "which line breaks may lie in a gap of the default lexer (only inside brackets or on blank lines) is stated through "
-    "the full lexer: gaps_are_trivia + full_lexer_tiles + PV.C10.full_lexer_filter + newline_only_at_depth0; the "
-    "blank-line condition for depth-0 NonLogicalNewline tokens is judged by the Python oracle, not proved",
+    "that the line breaks lying in gaps of the DEFAULT lexer are only those inside brackets or of blank lines is "
+    "obtained by combining gaps_are_trivia, full_lexer_tiles, nonlogical_newline_placement and "
+    "PV.C10.full_lexer_filter (they are exactly the NonLogicalNewline tokens of the full lexer); the combination is "
+    "not packaged as a single Lean theorem",
 ]
 READY = True
 TECHNIQUE = ("Lean 4 theorems over a hand-written character-level model of the lexer + exhaustive/random/real-program "
@@ -532,7 +532,7 @@ def _real_programs(ctx):
     chosen = [os.path.join(root, f) for f in fixed if os.path.exists(os.path.join(root, f))]
     pool = [f for f in files if f not in chosen]
     rng.shuffle(pool)
-    want = 110 if ctx.quick else 420
+    want = 110 if ctx.quick else 1200
     for f in pool:
         if len(chosen) >= want:
             break
@@ -597,8 +597,17 @@ def streams(ctx):
                  note=f"all texts of length <= {L} over {len(ALPHABET)} lexically significant characters "
                       "(blank, tab, LF, CR, FF, #, backslash, quotes, brackets, a _ 0 1 . e j x = - > : ! e-acute BOM)")
 
+    core_alpha = [" ", "\t", "\n", "\r", "#", "\\", "'", "(", ")", "a", "1", ".", "="]
+    L2 = 4 if ctx.quick else 5
+    reqs = []
+    for tup in itertools.product(core_alpha if ctx.quick else core_alpha[:11], repeat=L2):
+        reqs += _both("".join(tup))
+    out += _pair(f"exhaustive-len={L2}-core-alphabet", reqs, kind="exhaustive", exhaustive=True,
+                 note=f"all texts of length exactly {L2} over the core symbols "
+                      "(blank, tab, LF, CR, #, backslash, quote, brackets, a, 1" + (", ., =)" if ctx.quick else ")"))
+
     # 3. generated programs in every layout
-    n = 3000 if ctx.quick else 30000
+    n = 3000 if ctx.quick else 60000
     rng = ctx.rng("programs")
     reqs = []
     for i in range(n):
@@ -641,6 +650,24 @@ def streams(ctx):
 
 def search(ctx, disagreements, bins):
     seen = 0
+    if not disagreements:
+        # a proof obligation broke (e.g. the re-extracted spelling table no longer equals the reference):
+        # judge the real lexer directly on the corpus and on every operator / keyword in context
+        try:
+            strs = [s for s in streams(ctx) if s.kind == "corpus"]
+        except Exception:
+            strs = []
+        for s in strs:
+            h = s.harness or HARNESS
+            hbin = bins.get((h["bin"], h.get("features", "default")))
+            if not hbin:
+                continue
+            outs = core.run_lines([hbin], s.requests, jobs=4)
+            for r, o in zip(s.requests, outs):
+                fail = oracle(r, o)
+                if fail:
+                    return {"stream": s.name, "request": r, "impl": o, "failure": fail}
+        return None
     for e in disagreements[:40]:
         req = e["request"]
         ws = req.split()
